@@ -233,5 +233,36 @@ func c30(c *Ctx) {
 			c.Expect(ConstOfObj(c.konst("connectivity", "Connecting"))(k) || ConstOfObj(c.konst("connectivity", "TransientFailure"))(k) || ConstOfObj(c.konst("connectivity", "Idle"))(k), ci, f, "allowed-state", "the connection loop reports a state other than CONNECTING / TRANSIENT_FAILURE / IDLE")
 		}
 		c.Expect(len(want) == 3, nil, f, "three-states", "expected CONNECTING, TRANSIENT_FAILURE and IDLE reports in the connection loop")
+		// nothing is reported for a subchannel that was torn down meanwhile: every report follows a test "context still alive"
+		// made after the mutex was (re)acquired for that report
+		isErr := func(v ssa.Value) (*ssa.Call, bool) {
+			call, ok := v.(*ssa.Call)
+			if ok && CalleeX("context", "Context.Err")(&call.Call) {
+				return call, true
+			}
+			return nil, false
+		}
+		mu := c.field("grpc", "addrConn", "mu")
+		for _, ci := range callsIn(f, Callee("grpc", "addrConn.updateConnectivityState")) {
+			// the acquisition that this report runs under: the last Lock of ac.mu dominating it (none: the caller's)
+			var lock ssa.Instruction
+			for _, l := range callsIn(f, CalleeX("sync", "Mutex.Lock")) {
+				if mv, _ := mutexOfCall(l.Common()); mv != nil && sameField(mv, mu) && instrDominates(l, ci) {
+					if lock == nil || instrDominates(lock, l) {
+						lock = l
+					}
+				}
+			}
+			fresh := false
+			for _, fc := range FactsAt(ci) {
+				if fc.Kind != "cmp" || fc.Op != token.EQL || !ConstNil(fc.Y) {
+					continue
+				}
+				if call, ok := isErr(fc.X); ok && (lock == nil || instrDominates(lock, call)) {
+					fresh = true
+				}
+			}
+			c.Expect(fresh, ci, f, "report-only-while-the-subchannel-is-alive", "a state is reported without a 'context still alive' test made under the mutex acquisition the report runs in (a torn-down subchannel could report a state after SHUTDOWN)")
+		}
 	})
 }
